@@ -122,6 +122,25 @@ theorem run_snoc (s : SDeque α) (ops : List (Op α)) (op : Op α) :
         | none => rfl
         | some p2 => rfl
 
+/-- **The slice view the caller actually reads** (claim-audit, C15 table): `view` above is
+the total function `container.drop consumed`; what the Rust `Deref` impl - and the model
+driver, and the harness - evaluates is the bounds-checked `&container[consumed..]`
+(`SDeque.deref`, `none` = the slice index panics).  Under the invariant they coincide, so
+every statement about `view` is a statement about the `Deref` slice and `len()`. -/
+theorem deref_is_view (s : SDeque α) (h : Inv s) :
+    s.deref = some s.view ∧ s.view.length = s.container.length - s.consumed :=
+  ⟨h.deref, by simp [SDeque.view]⟩
+
+/-- … in particular after every operation sequence from `new()` / `From<Container>`: the
+`Deref` slice (and hence `len()`, `is_empty()`, indexing) does not panic and is exactly the
+reference deque's contents. -/
+theorem run_deref_refines_list (l : List α) (ops : List (Op α)) :
+    ∃ s', run (SDeque.ofList l) ops = some ((runRef l ops).1, s') ∧
+      s'.deref = some (runRef l ops).2 := by
+  obtain ⟨s', h1, h2, h3⟩ := run_spec (SDeque.inv_ofList l) ops
+  rw [SDeque.view_ofList] at h1 h2
+  exact ⟨s', h1, by rw [h3.deref, h2]⟩
+
 end Woodpile.Props.C15
 
 namespace Woodpile.Props.C15
